@@ -129,6 +129,10 @@ def option_grid(n):
     grid.append(("poly", {"scores": [float(3 * i - 2) for i in range(n)]}))
     grid.append(("poly", {"scores": [float(i * i + 1) for i in range(n)], "scores_as": "array"}))
     grid.append(("poly", {"scores": [float(2 * i + 1) for i in range(n)], "scores_as": "tuple"}))
+    if n >= 2:  # scores that do not ascend with the level order (descending; rotated)
+        grid.append(("poly", {"scores": [float(2 * (n - i)) for i in range(n)]}))
+        grid.append(("poly", {"scores": [1.0 + 1.5 * ((i + n // 2) % n) for i in range(n)]}))
+        grid.append(("poly", {"scores": [float(3 * (n - i) + (i % 2)) for i in range(n)], "scores_as": "array"}))
     return grid
 
 
